@@ -280,9 +280,25 @@ def run(ctx):
             if ctx.mine(n):
                 judge_seed(ctx, {"mnemonic": s, "passphrase": "", "mtag": "m:surrogate", "ptag": "p:empty"})
                 judge_seed(ctx, {"mnemonic": "zoo", "passphrase": s, "mtag": "m:ascii", "ptag": "p:surrogate"})
+        prev = None
         for _ in range(ctx.scale(1300, 150000)):
             mtag, m = gen_text(rnd, "mnemonic")
             ptag, p = gen_text(rnd, "pass")
+            if prev is not None and rnd.random() < 0.3:
+                # back-to-back twins of the previous request (a result remembered under an incomplete key would repeat)
+                pm, pp = prev
+                t = rnd.choice(["same-m", "same-p", "swap", "nfc-of-prev", "nfd-of-prev"])
+                if t == "same-m":
+                    m, mtag = pm, "m:twin"
+                elif t == "same-p":
+                    p, ptag = pp, "p:twin"
+                elif t == "swap":
+                    m, p, mtag, ptag = pp or "x", pm, "m:twin-swap", "p:twin-swap"
+                elif t == "nfc-of-prev":
+                    m, p, mtag, ptag = unicodedata.normalize("NFC", pm), unicodedata.normalize("NFC", pp), "m:twin-nfc", "p:twin-nfc"
+                else:
+                    m, p, mtag, ptag = unicodedata.normalize("NFD", pm), unicodedata.normalize("NFKC", pp), "m:twin-nfd", "p:twin-nfkc"
+            prev = (m, p)
             judge_seed(ctx, {"mnemonic": m, "passphrase": p, "mtag": mtag, "ptag": ptag})
         # seeds of every length 0..128 (enumerated), then random lengths
         for ln in range(0, 129):
